@@ -119,6 +119,8 @@ class Annotator:
                 out.append(["for", s[1], ca, b])
             elif k == "break":
                 out.append(["break"])
+            elif k == "continue":
+                out.append(["continue"])
             elif k == "pass":
                 continue
             else:
@@ -150,6 +152,8 @@ def wire_stmts(stmts, consts):
             out.append([5, s[1], wire_ann(s[2], consts), wire_stmts(s[3], consts)])
         elif k == "break":
             out.append([6])
+        elif k == "continue":
+            out.append([10])
         elif k == "write":
             out.append([7, wire_ann(s[1], consts)])
         elif k == "sleep":
@@ -173,7 +177,10 @@ def render_cexpr(w, ctexts, meta):
         return f"__tmp_assign_{w[1]}"
     if t == 3:
         opname = [v[1] for v in BINOPS.values() if v[0] == w[2]][0]
-        return f"({_txt(w[1])} {meta['bin'][opname]} {ctexts[w[3]]})"
+        form = (meta.get("bin_forms") or {}).get(opname, "({l} " + meta["bin"][opname] + " {r})")
+        if form is None:
+            raise ValueError(f"the parser rejects the operator {opname}")
+        return form.replace("{l}", _txt(w[1])).replace("{r}", ctexts[w[3]])
     raise ValueError(w)
 
 
@@ -202,6 +209,10 @@ def model_shape(nodes, ctexts, meta, exprs):
             out.append(["sleep", folded(exprs[n[1]], ctexts[n[1]])])
         elif t == 9:
             out.append(["exprs", ctexts[n[1]]])
+        elif t == 10:
+            out.append(["continue"])
+        elif t == 11:
+            out.append(["return"])
     return out
 
 
